@@ -186,7 +186,7 @@ func genWorld(r *hx.Rand) World {
 		rn := append([]string{}, relNames...)
 		hx.Shuffle(r, rn)
 		for _, n := range rn[:r.Intn(4)] {
-			rel := RelSpec{Name: n, Many: r.Bool(), ByDefault: r.Bool()}
+			rel := RelSpec{Name: n, Many: r.Bool(), ByDefault: r.Bool(), Custom: r.Intn(100) < 30}
 			rel.Resolve = genLink(r, rel.Many, names, clean && rel.ByDefault, relErr)
 			if !rel.ByDefault && r.Intn(100) < 10 {
 				// an error that only shows when the relationship's data is requested
